@@ -17,6 +17,7 @@ KINDS = {
     11: 'a native message was executed without a matching log of the system contract',
     12: 'the hook succeeded but did not execute exactly one message per matching log',
     13: 'the signer of a native message is not the first field of its event',
+    14: 'a field of a native message (validator, amount, proposal, option, weights) is not verbatim the field of its event',
     31: 'model and code disagree on the transaction result class',
     32: 'model and code disagree on the logs of the transaction (Solidity / EVM call model)',
     33: 'model and code disagree on the native state after the transaction',
@@ -244,6 +245,22 @@ def corpus_hook(env):
                     data='00' * 12 + d + _word(96) + _word(amount) + _enc_string(val))
     voted = dict(addr=env['gov'], topics=[t['Voted']], data='00' * 12 + d + _word(1) + _word(1))
     voted0 = dict(addr=env['gov'], topics=[t['Voted']], data='00' * 12 + d + _word(1) + _word(0))
+
+    def amount_ev(name, amount):     # Delegated / Undelegated(address, string, uint256)
+        return dict(addr=env['staking'], topics=[t[name]], data='00' * 12 + d + _word(96) + _word(amount) + _enc_string(val))
+
+    def redelegated(amount):         # Redelegated(address, string, string, uint256)
+        s1, s2 = _enc_string(b'src'), _enc_string(b'dst')
+        return dict(addr=env['staking'], topics=[t['Redelegated']],
+                    data='00' * 12 + d + _word(128) + _word(128 + len(s1) // 2) + _word(amount) + s1 + s2)
+
+    def voted_p(pid, opt):
+        return dict(addr=env['gov'], topics=[t['Voted']], data='00' * 12 + d + _word(pid) + _word(opt))
+
+    def votedw(pid, ows):
+        return dict(addr=env['gov'], topics=[t['VotedWeighted']],
+                    data='00' * 12 + d + _word(pid) + _word(96) + _word(len(ows)) + ''.join(_word(o) + _word(w) for o, w in ows))
+    BIG = [2 ** 63 - 1, 2 ** 63, 2 ** 64 - 1, 2 ** 64, 2 ** 64 + 5, 2 ** 128 + 5, 2 ** 255, 2 ** 256 - 1]
     unknown = dict(addr=env['staking'], topics=['ab' * 32], data='')
     return [
         dict(id=-1, which='staking', fail_at=-1, logs=[delegated(7), delegated(0)]),       # C17_hook_alone_not_atomic_refuted
@@ -266,11 +283,29 @@ def corpus_hook(env):
                                                        dict(delegated(9), addr='01' + env['staking'][2:]),
                                                        dict(delegated(9), addr=env['gov']), dict(voted, addr=env['staking']),
                                                        dict(voted, addr='11' * 12 + env['gov'][24:])]),
+        # every handler's amount / id / weight path at and above 2^63, 2^64, 2^64 + small, 2^128 + small, 2^255, 2^256 - 1
+        dict(id=-15, which='staking', fail_at=-1, logs=[amount_ev('Delegated', a) for a in BIG]),
+        dict(id=-16, which='staking', fail_at=-1, logs=[amount_ev('Undelegated', a) for a in BIG]),
+        dict(id=-17, which='multi', fail_at=-1, logs=[redelegated(a) for a in BIG]),
+    ] + [
+        # ... and each amount alone (a handler that mangles one amount into an invalid one stops the receipt above)
+        dict(id=-30 - 3 * i - j, which='staking', fail_at=-1, logs=[mk(a)])
+        for i, a in enumerate(BIG)
+        for j, mk in enumerate([lambda x: amount_ev('Delegated', x), lambda x: amount_ev('Undelegated', x), redelegated])
+    ] + [
+        dict(id=-18, which='gov', fail_at=-1, logs=[voted_p(2 ** 63, 1), voted_p(2 ** 64 - 1, 4), voted_p(2 ** 63 + 1, 2)]),
+        dict(id=-19, which='gov', fail_at=-1, logs=[votedw(2 ** 64 - 1, [(1, 60), (2, 40)]), votedw(2 ** 63, [(4, 100)])]),
+        dict(id=-20, which='gov', fail_at=-1, logs=[votedw(1, [(1, 2 ** 63 + 100)])]),         # weight casts: rejected
+        dict(id=-21, which='gov', fail_at=-1, logs=[votedw(1, [(1, 2 ** 64 - 50), (2, 150)])]),
+        dict(id=-22, which='gov', fail_at=-1, logs=[votedw(1, [(2 ** 32 - 4, 100)])]),
+        dict(id=-23, which='gov', fail_at=-1, logs=[voted_p(1, 2 ** 31 + 1)]),
     ]
 
 
 CORPUS_EXPECT = {-1: (1, 1), -2: (0, 2), -3: (2, 0), -4: (2, 0), -5: (0, 1), -6: (1, 0), -7: (1, 0), -8: (1, 1), -9: (1, 0),
-                 -10: (1, 0), -11: (1, 0), -12: (1, 1), -13: (0, 4), -14: (0, 0)}   # id -> (class, number of messages)
+                 -10: (1, 0), -11: (1, 0), -12: (1, 1), -13: (0, 4), -14: (0, 0), -15: (0, 8), -16: (0, 8), -17: (0, 8), -18: (0, 3),
+                 -19: (0, 2), -20: (1, 0), -21: (1, 0), -22: (1, 0), -23: (1, 0)}
+CORPUS_EXPECT.update({-30 - k: (0, 1) for k in range(24)})   # id -> (class, number of messages)
 
 
 def evaluate(workdir, results, mode, tag, shard=None):
@@ -461,7 +496,7 @@ def check(run):
     n_corpus = 0
     if hooks is not None and apps is not None:
         # directed histories (harness/cmd/c17/corpus.go) run first on every check, whatever the seed
-        capps, err2 = run_generated(run, 'appcorpus', 48, 12)
+        capps, err2 = run_generated(run, 'appcorpus', 96, 12)
         if capps is None:
             apps = None
         else:
